@@ -8,20 +8,25 @@
  *      RB_A_HAS() of spec/registers-block.h; it coincides with the bit-precise
  *      one exactly for areas/registers whose end does not wrap (RB_A_NOWRAP /
  *      RB_E_NOWRAP, which table well-formedness supplies).
- *   2. walkers: ghost-index loop contracts (contracts/registers-core.loops).
- *   3. register_init, block read/write, iteration: postconditions from the
- *      property statements; the expected outcome is computed by the spec
- *      functions of spec/registers-block.h in the harness and handed to the
- *      contract in the ghost record g_rb (enforce-only contracts).
+ *   2. walkers: ghost-index loop contracts (contracts/registers-core.loops):
+ *      reg_count_areas, reg_count_entries, ra_find_area_by_addr,
+ *      ra_first_entry_of_next, reg_entry_is_in_memory.
+ *   3. register_init, block read/write, iteration: NOT through dfcc (see the
+ *      note at the end of this file); their postconditions from the property
+ *      statements are spec functions over a value model of the table
+ *      (spec/registers-block.h) that the harness asserts right after the real
+ *      call (harness/registers-block.c), discharged by bounded model checking.
  */
 #ifndef CONTRACTS_REGISTERS_BLOCK_H
 #define CONTRACTS_REGISTERS_BLOCK_H
 #include "spec/registers-block.h"
 
-#if VERIF_IS_NATIVE
-#define RB_SAME_OBJECT(p, q) 0
+#if VERIF_IS_NATIVE            /* object identity has no native reading: both claims hold */
+#define RB_SAME_OBJECT(p, q) 1
+#define RB_DISTINCT_OBJECT(p, q) 1
 #else
 #define RB_SAME_OBJECT(p, q) __CPROVER_same_object(p, q)
+#define RB_DISTINCT_OBJECT(p, q) (!__CPROVER_same_object(p, q))
 #endif
 #define RB_INITIALISED(t) (((t)->flags & REG_TF_INITIALISED) != 0)
 #define RB_BE(t) (((t)->flags & REG_TF_BIG_ENDIAN) != 0)
@@ -173,7 +178,7 @@ static bool reg_entry_is_in_memory(RegisterTable *t, RegisterEntry *e)
 __CPROVER_requires(__CPROVER_r_ok(t, sizeof(RegisterTable)))
 __CPROVER_requires(__CPROVER_r_ok(t->area, (size_t)t->areas * sizeof(RegisterArea)))
 __CPROVER_requires(__CPROVER_rw_ok(e, sizeof(RegisterEntry)) && RB_TYPE_IS_ENUM(e->type))
-__CPROVER_requires(!RB_SAME_OBJECT(e, t) && !RB_SAME_OBJECT(e, t->area))
+__CPROVER_requires(RB_DISTINCT_OBJECT(e, t) && RB_DISTINCT_OBJECT(e, t->area))
 __CPROVER_assigns(e->area, e->offset)
 __CPROVER_ensures(IMPLIES(__CPROVER_return_value,
     RB_SAME_OBJECT(e->area, t->area) && (size_t)(e->area - t->area) < t->areas
